@@ -170,7 +170,10 @@ def check_orthorhombic(case):
         raise Skip("symmetry-axis choice nearly tied")
     Q = gen.rot(case["Q"])
     m1 = rotate6(m0, Q)
-    out = sut(pydrex.elasticity_components, np.stack([m0, m1]))
+    stack = np.stack([m0, m1])
+    stack_before = stack.copy()
+    out = sut(pydrex.elasticity_components, stack)
+    require(np.array_equal(stack, stack_before), "elasticity_components modified its input matrices")
     worst = 0.0
     for idx, m, what in ((0, m0, "unrotated"), (1, m1, "rotated")):
         pa = _basic(out, m, idx, what)
